@@ -29,6 +29,10 @@ RULE = ("perm: L1 on the real clp / tokenregistry message servers and the real i
         "ratio CalculatePoolUnits classifies by differ: adds exactly at the raw ratio, exactly at the depth ratio, at three points strictly "
         "between them, one base unit off, and outside on both sides, under all 16 combinations of DISABLE_BUY / DISABLE_SELL on rowan and on "
         "the pool token; the judge classifies by the depths (balance + liabilities) read from the stored pool. "
+        "(h) counterparty links between REGISTERED entries: the "
+        "sent token names another registered denom as ibc_counterparty_denom (sometimes also base_denom; link back in some), decimals of the "
+        "two entries from {0,6,10,18,20}, permission masks with / without IBCEXPORT on either side, 4 token pairs incl. rowan, then in a third "
+        "of the trials IBCEXPORT is flipped on the sent denom alone by MsgRegister and the transfer repeated (+ n/6 random). "
         "Every registry message is rendered from the message as SENT (the handler gets its own copy) and has its own "
         "chk c12.regstored: the registry as stored afterwards (raw KV bytes) equals the edit applied to the registry as stored before. Compared: registry after every edit, pass/refuse of every message (transfer: refused by the "
         "wrapper or reached the ibc-go stub), whether a refused handler wrote to its own cached state. chk: accepted => decision table "
